@@ -254,6 +254,7 @@ func (rc *RtmpConn) Play(msid uint32, name string) error {
 type RtmpHistory struct {
 	mu     sync.Mutex
 	Msgs   []RtmpMsg
+	At     []time.Time // arrival time of Msgs[i]
 	Err    error
 	Closed bool
 	cond   *sync.Cond
@@ -269,9 +270,17 @@ func NewRtmpHistory() *RtmpHistory {
 func (h *RtmpHistory) Add(m RtmpMsg) {
 	h.mu.Lock()
 	h.Msgs = append(h.Msgs, m)
+	h.At = append(h.At, time.Now())
 	h.Bytes += int64(len(m.Payload))
 	h.cond.Broadcast()
 	h.mu.Unlock()
+}
+
+// Times returns a copy of the arrival times.
+func (h *RtmpHistory) Times() []time.Time {
+	h.mu.Lock()
+	defer h.mu.Unlock()
+	return append([]time.Time(nil), h.At...)
 }
 
 func (h *RtmpHistory) Finish(err error) {
